@@ -1,8 +1,13 @@
 package checks
 
 import (
+	"context"
+	"encoding/json"
 	"fmt"
 	"strings"
+	"sync"
+
+	"github.com/creachadair/jrpc2"
 
 	"verif/harness/peer"
 	"verif/harness/sched"
@@ -59,7 +64,11 @@ func c03build(script []string) (msgs []c03msg, tags []string) {
 	return
 }
 
-func (m c03msg) wire() string {
+func (m c03msg) wire() string { return m.wireWith("g") }
+
+// wireWith renders the message with the given handler kind for notifications
+// ("g" gated, "G" gated and deaf to its context).
+func (m c03msg) wireWith(noteMethod string) string {
 	var parts []string
 	for _, mem := range m.members {
 		id := ""
@@ -73,7 +82,11 @@ func (m c03msg) wire() string {
 		if mem.nullID {
 			id = "null"
 		}
-		parts = append(parts, peer.Req(id, "g", mem.tag))
+		if mem.note {
+			parts = append(parts, peer.Req(id, noteMethod, mem.tag))
+		} else {
+			parts = append(parts, peer.Req(id, "g", mem.tag))
+		}
 	}
 	if m.batch {
 		return "[" + strings.Join(parts, ",") + "]"
@@ -185,7 +198,12 @@ type c03run struct {
 	order  []string
 	ctrl   *sched.Controller
 	stopAt int // Stop() is called before the stopAt-th release (0 = right after arrival); -1 = never
+	// E4 variants
+	kcb    bool // every notification handler first performs Server.Callback with its own context and waits for the reply
+	ctxEnd bool // ServerOptions.NewContext hands out cancellable contexts; those of the running notifications are ended after arrival
 }
+
+type c03ctxKey struct{}
 
 // c03orderOnly checks clause (i) on timestamps for whatever has run, and that
 // every notification ran exactly once (after a stop, calls may be dropped).
@@ -229,18 +247,77 @@ func c03exec(c *vt.Ctx, r c03run) {
 	msgs, _ := c03build(r.script)
 	effConc := r.conc
 	peer.Bubble(c, r.ctrl, func() {
-		rig := peer.NewServerRig(c, r.ctrl, peer.ServerOpts{Concurrency: r.conc})
+		opts := peer.ServerOpts{Concurrency: r.conc, AllowPush: r.kcb}
+		var cmu sync.Mutex
+		cancelOf := map[string]context.CancelFunc{} // by tag, registered by the handler itself
+		if r.ctxEnd {
+			opts.BaseContext = func() context.Context {
+				ctx, cancel := context.WithCancel(context.Background())
+				return context.WithValue(ctx, c03ctxKey{}, cancel)
+			}
+		}
+		rig := peer.NewServerRig(c, r.ctrl, opts)
+		if r.kcb || r.ctxEnd {
+			rig.H.OnEnter = func(ctx context.Context, tag string, req *jrpc2.Request) {
+				if cancel, ok := ctx.Value(c03ctxKey{}).(context.CancelFunc); ok && req.IsNotification() {
+					cmu.Lock()
+					cancelOf[tag] = cancel
+					cmu.Unlock()
+				}
+				if r.kcb && req.IsNotification() {
+					rsp, err := jrpc2.ServerFromContext(ctx).Callback(ctx, "cb", map[string]string{"t": tag})
+					rig.Log.Add("cb.ret", tag, peer.DescribeResp(rsp, err))
+				}
+			}
+		}
+		noteMethod := "g"
+		if r.ctxEnd {
+			noteMethod = "G"
+		}
 		for _, m := range msgs {
-			rig.Send(m.wire())
+			rig.Send(m.wireWith(noteMethod))
 		}
 		rig.Settle()
 		c03state(c, rig, msgs, effConc, "after arrival")
+		if r.ctxEnd {
+			cmu.Lock()
+			n := len(cancelOf)
+			for _, cancel := range cancelOf {
+				cancel()
+			}
+			cmu.Unlock()
+			rig.Settle()
+			c03state(c, rig, msgs, effConc, fmt.Sprintf("after the contexts of the %d running notifications ended", n))
+			c.Count("notification_contexts_ended", n)
+		}
+		isNote := map[string]bool{}
+		for _, m := range msgs {
+			for _, mem := range m.members {
+				isNote[mem.tag] = mem.note
+			}
+		}
 		stopped := false
 		for k, tag := range r.order {
 			if r.stopAt == k {
 				rig.Srv.Stop()
 				rig.Settle()
 				stopped = true
+			}
+			if r.kcb && isNote[tag] {
+				// answer the callback this notification's handler is waiting in (if it has been issued)
+				for _, rec := range rig.Outbound() {
+					var req struct {
+						ID     json.RawMessage `json:"id"`
+						Method string          `json:"method"`
+						Params struct {
+							T string `json:"t"`
+						} `json:"params"`
+					}
+					if json.Unmarshal(rec, &req) == nil && req.Method == "cb" && req.Params.T == tag {
+						rig.Send(`{"jsonrpc":"2.0","id":` + string(req.ID) + `,"result":"r"}`)
+						c.Count("callbacks_from_notifications_answered", 1)
+					}
+				}
 			}
 			rig.H.Release(tag)
 			rig.Settle()
@@ -270,13 +347,14 @@ func init() {
 		Level: "exploration",
 		Rule: "scripts = all sequences (length<=L) of gated messages over {N,C,[N,C],[N,N],[C,C],[C,N,C],[C,N], built-in call rpc.serverInfo, notification spelled with \"id\":null, [null-id notification, C]}, also with Stop() issued while later messages are still queued (retained notifications must keep arrival order) sent back to back to a real server, " +
 			"x Concurrency {1,2,8} x every release order of the gates (<=4 gates; seeded orders beyond), oracle at every quiescent point; " +
-			"plus delay-bounded schedules (every single hook visit parked, pairs in thorough) and seeded perturbation. " +
+			"plus delay-bounded schedules (every single hook visit parked, pairs in thorough) and seeded perturbation; " +
+			"E4: scripts over {N,C,[N,C],[C,N],[N,N]} in which every notification handler waits in Server.Callback with its own context until the peer answers, or runs (deaf to its context) while the context ServerOptions.NewContext gave it is ended. " +
 			"distinct_nontrivial = distinct (script, concurrency, release order, delay set) executions that contained at least one notification followed by a later message",
 		Assumptions: []string{
 			"Go 1.26.8 standard library and testing/synctest (quiescence = all bubble goroutines durably blocked)",
 			"between hook points goroutines are scheduled by the Go runtime (schedules are recorded, not replayed bit for bit)",
 		},
-		Require: map[string]int64{"handler_runs": 100, "events": 1000},
+		Require: map[string]int64{"handler_runs": 100, "events": 1000, "notification_contexts_ended": 50, "callbacks_from_notifications_answered": 50},
 		Cases:   c03cases,
 	})
 }
@@ -386,6 +464,52 @@ func c03cases(e vt.Env, yield func(vt.Case) bool) {
 			}})
 			if !ok {
 				return false
+			}
+		}
+		return true
+	})
+	if !ok {
+		return
+	}
+	// E4: notifications whose handlers wait in Server.Callback (their own context), and
+	// notifications whose context (ServerOptions.NewContext) ends while they run: neither
+	// may let a later request start early.
+	e4alpha := []string{"N", "C", "NC", "CN", "NN"}
+	seqs(len(e4alpha), 2, e.Pick(2, 3), func(idx []int) bool {
+		script := make([]string, len(idx))
+		for i, k := range idx {
+			script[i] = e4alpha[k]
+		}
+		if !c03nontrivial(script) {
+			return true
+		}
+		for _, variant := range []string{"kcb", "ctxend"} {
+			for _, conc := range []int{1, 2, 8} {
+				if variant == "kcb" && conc == 1 {
+					continue
+				}
+				script, conc, variant := append([]string(nil), script...), conc, variant
+				id := fmt.Sprintf("E4/%s/%s/c%d", variant, join(script), conc)
+				ok = yield(vt.Case{ID: id, Run: func(c *vt.Ctx) {
+					_, tags := c03build(script)
+					rev := append([]string(nil), tags...)
+					for i, j := 0, len(rev)-1; i < j; i, j = i+1, j-1 {
+						rev[i], rev[j] = rev[j], rev[i]
+					}
+					rng := e.Rand(id)
+					for oi, ord := range [][]string{tags, rev} {
+						for _, ctrl := range []*sched.Controller{sched.New(), sched.New().WithPerturb(0.1, rng)} {
+							c03exec(c, c03run{script: script, conc: conc, order: ord, ctrl: ctrl, stopAt: -1, kcb: variant == "kcb", ctxEnd: variant == "ctxend"})
+							if c.Failed() {
+								return
+							}
+						}
+						c.Distinct(fmt.Sprintf("%s/o%d", id, oi))
+					}
+				}})
+				if !ok {
+					return false
+				}
 			}
 		}
 		return true
